@@ -62,7 +62,8 @@ def execute(case):
                    resolver=tuple(case["resolver"]) if case.get("resolver") else None,
                    aging=case.get("aging", 0.0), whole=case.get("whole", False),
                    root_by_oid=case.get("root_by_oid", False), decline=case.get("decline"),
-                   prioritize=_prio_fn(case.get("prio")))
+                   prioritize=_prio_fn(case.get("prio")), smart=case.get("smart", False))
+        s.auto_names = case.get("auto") or []
         base = case["base"]
         if isinstance(base, str):
             base = BASES[base]
@@ -134,7 +135,7 @@ def _strip(ev):
 
 
 def _short(case):
-    return {k: v for k, v in case.items() if k in ("flavor", "base", "tokens", "resolver", "family", "aging", "kase", "prio", "mangle")}
+    return {k: v for k, v in case.items() if k in ("flavor", "base", "tokens", "resolver", "family", "aging", "kase", "prio", "mangle", "smart", "auto", "base_side")}
 
 
 # ---- seeded random histories (deeper than the exhaustive family) -------------------------------------------
